@@ -30,7 +30,7 @@ import (
 	"github.com/dolthub/dolt/go/zzverif/vt"
 )
 
-const c14Rule = "base (0..22000 entries; part `wide` is the wide-row flavour: 300-900 rows with values padded to a drawn band between 120 and 850 bytes (6-15 rows per leaf), runs of up to 6-120 keys, 10-40 edits per side, one side shifting chunk boundaries by deletes/inserts/size-changing updates at leaf ends and their neighbours, the other making point edits there; one in five cut right after a leaf boundary, with a hot window on its end), left and right by independent drawn edit scripts (single puts/deletes in 3 shared hot windows and one private window per side, contiguous runs of up to 500 deleted or inserted keys, edits at leaf boundaries of the base, plus 0-4 explicit both-sided edits of one hot key, and a tail shape: one side deletes the last keys, the other appends past the end / edits inside that tail, both edit shortly before it) or by a drawn special shape (one side unchanged, one side emptied, both sides identical, a common script on both sides first); sides built through MutableMap from the base tree or in bulk; collision handler drawn from {always conflict, take left, take right, field-wise combine (delete wins), conflict on odd keys else take right}. A key-wise model gives the expected map and the expected set of divergent keys. Compared: prolly.MergeMaps result and handler invocations (key, both diffs' from/to/type); tree.PatchGeneratorFromRoots+SendPatches+ApplyPatches on the left root (same root as MergeMaps, same invocations); every tree.ThreeWayDiffer output (op, key, base/left/right/merged) and its resolve-callback invocations; root hash of the merged map vs a bulk build of the expected content. Non-trivial: at least one divergent key, at least one range patch (level>0) sent for the right side, and base height>=2; distinct by hash of (schema, size, shape, scripts, handler)."
+const c14Rule = "base (0..22000 entries; part `tall` repeats the wide flavour with 2600-4500 rows (three tree levels) and the tail shape cut anywhere in the last three quarters (delete suffix / rewrite a stretch / both sides truncate and append); part `wide` is the wide-row flavour: 300-900 rows with values padded to a drawn band between 120 and 850 bytes (6-15 rows per leaf), runs of up to 6-120 keys, 10-40 edits per side, one side shifting chunk boundaries by deletes/inserts/size-changing updates at leaf ends and their neighbours, the other making point edits there; one in five cut right after a leaf boundary, with a hot window on its end), left and right by independent drawn edit scripts (single puts/deletes in 3 shared hot windows and one private window per side, contiguous runs of up to 500 deleted or inserted keys, edits at leaf boundaries of the base, plus 0-4 explicit both-sided edits of one hot key, and a tail shape: one side deletes the last keys, the other appends past the end / edits inside that tail, both edit shortly before it) or by a drawn special shape (one side unchanged, one side emptied, both sides identical, a common script on both sides first); sides built through MutableMap from the base tree or in bulk; collision handler drawn from {always conflict, take left, take right, field-wise combine (delete wins), conflict on odd keys else take right}. A key-wise model gives the expected map and the expected set of divergent keys. Compared: prolly.MergeMaps result and handler invocations (key, both diffs' from/to/type); tree.PatchGeneratorFromRoots+SendPatches+ApplyPatches on the left root (same root as MergeMaps, same invocations); every tree.ThreeWayDiffer output (op, key, base/left/right/merged) and its resolve-callback invocations; root hash of the merged map vs a bulk build of the expected content. Non-trivial: at least one divergent key, at least one range patch (level>0) sent for the right side, and base height>=2; distinct by hash of (schema, size, shape, scripts, handler)."
 
 type c14Handler int
 
@@ -142,7 +142,9 @@ func (s *c14SlicePatches) NextPatch(context.Context) (tree.Patch, error) {
 }
 func (s *c14SlicePatches) Close() error { return nil }
 
-func c14Case(t *rapid.T, rec *vh.Recorder, wideOnly, knownTail bool) {
+// tall (implies wideOnly): 2600-4500 wide rows, i.e. trees of three levels, with the tail shape cut
+// anywhere in the last three quarters of the map.
+func c14Case(t *rapid.T, rec *vh.Recorder, wideOnly, tall, knownTail bool) {
 	var ks, vs vt.Schema
 	flavor := "rows"
 	fl := 19
@@ -169,11 +171,16 @@ func c14Case(t *rapid.T, rec *vh.Recorder, wideOnly, knownTail bool) {
 	w.wide = flavor == "wide"
 	if w.wide {
 		w.padLo = rapid.SampledFrom([]int{120, 300, 450}).Draw(t, "padLo")
+		if tall && w.padLo < 300 {
+			w.padLo = 300
+		}
 		w.padSpan = rapid.SampledFrom([]int{1, 60, 401}).Draw(t, "padSpan")
 	}
 	ctx := w.ctx
 	var n int
-	if w.wide {
+	if tall {
+		n = rapid.IntRange(2600, 4500).Draw(t, "n")
+	} else if w.wide {
 		n = rapid.IntRange(300, 900).Draw(t, "n")
 	} else {
 		switch sizeClass := rapid.IntRange(0, 9).Draw(t, "sizeClass"); {
@@ -209,7 +216,7 @@ func c14Case(t *rapid.T, rec *vh.Recorder, wideOnly, knownTail bool) {
 	// one base in five is cut right after a leaf boundary: its last leaf then ends on a natural
 	// chunk boundary, and keys appended by one side start a new leaf next to the other side's edits
 	cutBase := false
-	if ib := shB.innerBounds(); len(ib) > 0 && rapid.IntRange(0, 4).Draw(t, "cutBaseAtBoundary") == 0 {
+	if ib := shB.innerBounds(); len(ib) > 0 && !tall && rapid.IntRange(0, 4).Draw(t, "cutBaseAtBoundary") == 0 {
 		j := rapid.IntRange(0, len(ib)-1).Draw(t, "cutLeaf")
 		B = vt.FromSorted(append([]vt.Entry(nil), B.E[:ib[j]+1]...))
 		gb.note("cut after leaf %d (#%d)", j, ib[j])
@@ -250,12 +257,17 @@ func c14Case(t *rapid.T, rec *vh.Recorder, wideOnly, knownTail bool) {
 		}
 	}
 	shapeKind := rapid.IntRange(0, 11).Draw(t, "shape")
+	if tall && shapeKind < 8 {
+		shapeKind = 8
+	}
 	var ls, rs []c12Edit
 	var sname string
 	// tail shape (see below): decided here because it keeps the other edits few
 	tailShape := false
 	if shapeKind >= 5 && B.Len() > 0 {
-		if cutBase || wideOnly {
+		if tall {
+			tailShape = true
+		} else if cutBase || wideOnly {
 			tailShape = rapid.Bool().Draw(t, "tailOps")
 		} else {
 			tailShape = rapid.IntRange(0, 3).Draw(t, "tailOpsUncut") == 0
@@ -337,11 +349,19 @@ func c14Case(t *rapid.T, rec *vh.Recorder, wideOnly, knownTail bool) {
 			if w.wide {
 				maxDel, maxApp = 60, 20
 			}
+			if tall {
+				// the cut may fall anywhere in the last three quarters: several level-1 nodes back
+				maxDel, maxApp = B.Len()*3/4, 60
+			}
 			m := rapid.IntRange(0, maxApp).Draw(t, "tailAppend")
 			k := rapid.IntRange(1, maxDel).Draw(t, "tailDelete")
 			if k > B.Len() {
 				k = B.Len()
 			}
+			// what the truncating side does with the last k keys: delete them all (0,1), rewrite a
+			// stretch of them with values of other sizes and keep the rest (2), or delete them while
+			// the other side truncates too, at its own cut, before appending (3)
+			tailKind := rapid.IntRange(0, 3).Draw(t, "tailKind")
 			inside := rapid.IntRange(0, 4).Draw(t, "tailInside")
 			before := rapid.IntRange(0, 3).Draw(t, "tailBefore")
 			ad, ag, ae, dd, dg, de := L, gl, &ls, R, gr, &rs
@@ -355,10 +375,33 @@ func c14Case(t *rapid.T, rec *vh.Recorder, wideOnly, knownTail bool) {
 			for i := 1; i <= m; i++ {
 				put(ad, ae, w.keyAt(p+i, (p+i)%4), w.valAt(i))
 			}
-			for i := 0; i < k; i++ {
-				kk := B.E[B.Len()-1-i].K
-				dd.Delete(kk)
-				*de = append(*de, c12Edit{K: kk, Del: true})
+			if tailKind == 2 {
+				stretch := rapid.IntRange(1, 300).Draw(t, "tailRewrite")
+				for i := 0; i < stretch && i < k; i++ {
+					put(dd, de, B.E[B.Len()-k+i].K, w.valAt(i+7))
+				}
+			} else {
+				for i := 0; i < k; i++ {
+					kk := B.E[B.Len()-1-i].K
+					dd.Delete(kk)
+					*de = append(*de, c12Edit{K: kk, Del: true})
+				}
+			}
+			if tailKind == 3 {
+				k2 := rapid.IntRange(1, maxDel).Draw(t, "tailDeleteOther")
+				for i := 0; i < k2 && i < B.Len(); i++ {
+					kk := B.E[B.Len()-1-i].K
+					ad.Delete(kk)
+					*ae = append(*ae, c12Edit{K: kk, Del: true})
+				}
+				// re-append after truncating (the appended keys were put before)
+				for i := 1; i <= m; i++ {
+					put(ad, ae, w.keyAt(p+i, (p+i)%4), w.valAt(i))
+				}
+				m2 := rapid.IntRange(0, maxApp).Draw(t, "tailAppendOther")
+				for i := 1; i <= m2; i++ {
+					put(dd, de, w.keyAt(p+200+i, (p+i)%4), w.valAt(i+3))
+				}
 			}
 			for i := 0; i < inside; i++ {
 				label := fmt.Sprintf("tailIn%d", i)
@@ -425,7 +468,7 @@ func c14Case(t *rapid.T, rec *vh.Recorder, wideOnly, knownTail bool) {
 					put(sd.d, sd.es, kk, w.genVal(t, label+".v"))
 				}
 			}
-			ag.note("tail: append %d past the end, %d edits inside the last %d keys, %d edits before them", m, inside, k, before)
+			ag.note("tail(kind %d): append %d past the end, %d edits inside the last %d keys, %d edits before them", tailKind, m, inside, k, before)
 			dg.note("tail: delete the last %d base keys and a run of %d keys %d before them, %d edits before the tail (both sides: %v)", k, shift, shiftBack, before, beforeBoth)
 		}
 	}
@@ -978,9 +1021,13 @@ func TestVerif_C14(t *testing.T) {
 			t.Errorf("three-way merge of a valid triple: %s", what)
 		}
 	})
-	vh.Check(t, "merge", 2400, 2000, func(rt *rapid.T) { c14Case(rt, rec, false, knownTail) })
+	vh.Check(t, "merge", 2400, 2000, func(rt *rapid.T) { c14Case(rt, rec, false, false, knownTail) })
 	recW := vh.NewRecorder("C14", "wide", "exploration", c14Rule,
 		"wide-row part: same oracle; rows padded so that a leaf holds 6-15 rows")
 	defer recW.Write(t)
-	vh.Check(t, "wide", 600, 800, func(rt *rapid.T) { c14Case(rt, recW, true, knownTail) })
+	vh.Check(t, "wide", 600, 800, func(rt *rapid.T) { c14Case(rt, recW, true, false, knownTail) })
+	recT := vh.NewRecorder("C14", "tall", "exploration", c14Rule,
+		"tall part: same oracle; 2600-4500 wide rows (trees of three levels), one side truncates or rewrites its tail at a cut drawn in the last three quarters of the map, the other side appends / inserts behind it (or truncates as well)")
+	defer recT.Write(t)
+	vh.Check(t, "tall", 100, 100, func(rt *rapid.T) { c14Case(rt, recT, true, true, knownTail) })
 }
